@@ -155,4 +155,17 @@ theorem C08_model_holds (st : List Tariff) (c : SUR) :
           · simp [hq]
         · simp [h1, h2]
 
+/-- the unit cost the CHF decodes is the exact value of the tariff modulo 2^32, for every non-negative Value-Digits
+    (up to the whole int64 range) and every Exponent up to 18 — not an approximation of it: a decoding that forms the
+    product in floating point agrees below 2^53 only -/
+theorem C08_unit_cost_exact_mod (d : Int) (e : Nat) (hd : 0 ≤ d) (he : e ≤ 18) :
+    Rating.chfUnitCost d (e : Int) = (d.toNat * 10 ^ e) % 4294967296 := by
+  obtain ⟨n, rfl⟩ := Int.eq_ofNat_of_zero_le hd
+  unfold Rating.chfUnitCost Rating.u32 Rating.pow10u32
+  have h1 : ¬ ((e : Int) < 0) := by omega
+  have h2 : (e : Int) ≤ 18 := by omega
+  simp only [h1, h2, if_false, if_true, Int.toNat_natCast]
+  have h3 : ((n : Int) % 4294967296).toNat = n % 4294967296 := by omega
+  rw [h3, ← Nat.mul_mod]
+
 end Chf.Props.C08
